@@ -167,6 +167,7 @@ class Unit:
         self._emitted = set()       # module-level names emitted: tuples of path segments
         self._auto_uses = []        # (piece, source file, module path) resolved at render time
         self._impl_depth = 0
+        self._impl_depth_trait = 0
         self.labels = {}
         self.notes = []
         self.externs = ["http", "hyper", "bytes", "tokio", "serde_json", "itertools", "hex", "hmac_sha256",
@@ -466,7 +467,7 @@ class Unit:
         if k in ("struct", "enum", "const", "static", "type", "fn"):
             edits += self._vis_edits(sf, it, start, make_pub)
         elif k in ("impl_const",):
-            edits += self._vis_edits(sf, it, start, make_pub)
+            edits += self._vis_edits(sf, it, start, make_pub and self._impl_depth_trait == 0)
         if k == "struct":
             for f in it["fields"]:
                 fs = f["span"][0]
